@@ -96,6 +96,18 @@ rule(r"^offset::local::tz_info::timezone::TimeZoneRef::<'a>::(find_local_time_ty
 rule(r"^datetime::DateTime::<Tz>::timestamp_(micros|millis)$", "overflow", r".*", "|timestamp()| <= 8.3 * 10^12 s for every representable date (year within +-262143), so the product fits i64")
 rule(r"^time_delta::serde::<impl serde::Deserialize<'de> for time_delta::TimeDelta>::deserialize$", "lossy-cast", r"nanos as u32", "a negative or oversized nanos becomes >= 10^9 after the cast and is rejected by TimeDelta::new")
 
+
+# ---- tz_info (C16 roots) ------------------------------------------------------------------------
+T = r"^offset::local::tz_info::"
+rule(T + r"parser::Cursor::<'a>::read_be_u32$", "bounds", r"copy_from_slice", "read_exact(4) returns exactly 4 bytes on success")
+rule(T + r"parser::Cursor::<'a>::read_exact$", "overflow", r"Add\(self\.1,count\)", "read_count counts bytes consumed from a slice, so read_count + count <= len <= isize::MAX")
+rule(T + r"parser::parse$", "bounds", r".*", "chunks_exact(n) yields slices of exactly n bytes (time_size is 4 or 8; local time types are 6 bytes; leap records time_size + 4); name offsets are checked against the names block (`char_index..` followed by position(), errors otherwise)")
+rule(T + r"rule::UtcDateTime::from_timespec$", "(bounds|lossy-cast)", r".*", "month counts at most 12 steps of the 12-entry cumulative table before remaining_days is exhausted; year is range-checked against i32 just above; month_day is < 31 after the loop")
+rule(T + r"timezone::TimeZoneName::as_bytes$", "panic", r"unreachable", "bytes[0] holds the length 3..=7 written by TimeZoneName::new (the only constructor)")
+rule(T + r"timezone::TimeZoneName::new$", "(lossy-cast|bounds)", r".*", "len is checked to be 3..=7 first; i < len = input.len()")
+rule(T + r"timezone::TimeZoneRef::<'a>::unix_leap_time_to_unix_time$", "bounds", r"index\(Sub\(index,1\)", "Err(0) / Ok(_) arms: index >= 1 in this arm and index <= len (binary_search)")
+rule(T + r"timezone::TimeZoneRef::<'a>::validate$", "(bounds|overflow)", r".*", "loop indices are guarded by `i < len` / `i + 1 < len` in the loop conditions; [0] is guarded by !is_empty(); last_transition's type index was checked in the first loop")
+
 out = []
 todo = []
 seen = set()
